@@ -36,18 +36,40 @@ type GkrSeries struct {
 	Pattern string `json:"pattern"`
 }
 
-// dep: does instance k take the dependent input from instance k-1?
-func (s GkrSeries) dep(k int) bool {
-	if s.Input < 0 || k == 0 {
-		return false
+// src: the instance from which instance k takes the dependent input (-1: none); n is the number of instances
+func (s GkrSeries) src(k, n int) int {
+	if s.Input < 0 {
+		return -1
 	}
 	switch s.Pattern {
 	case "alt":
-		return k%2 == 1
+		if k%2 == 1 {
+			return k - 1
+		}
+		return -1
 	case "single":
-		return k == 1
+		if k == 1 {
+			return 0
+		}
+		return -1
+	case "rev":
+		if k < n-1 {
+			return k + 1
+		}
+		return -1
+	case "rot":
+		if k == 0 {
+			return 2
+		}
+		if k == 1 {
+			return 0
+		}
+		return -1
 	}
-	return true
+	if k > 0 {
+		return k - 1
+	}
+	return -1
 }
 
 type GkrBeh struct {
@@ -98,8 +120,8 @@ func (c *GkrCircuit) Define(api frontend.API) error {
 		as := make([]frontend.Variable, t.NInst)
 		copy(as, c.In[i])
 		if t.Series.Input == i {
-			for k := 1; k < t.NInst; k++ {
-				if t.Series.dep(k) {
+			for k := 0; k < t.NInst; k++ {
+				if t.Series.src(k, t.NInst) >= 0 {
 					as[k] = nil
 				}
 			}
@@ -140,9 +162,9 @@ func (c *GkrCircuit) Define(api frontend.API) error {
 		}
 	}
 	if t.Series.Input >= 0 {
-		for k := 1; k < t.NInst; k++ {
-			if t.Series.dep(k) {
-				g.Series(vars[t.Series.Input], vars[t.NIn+t.Series.Gate-1], k, k-1)
+		for k := 0; k < t.NInst; k++ {
+			if j := t.Series.src(k, t.NInst); j >= 0 {
+				g.Series(vars[t.Series.Input], vars[t.NIn+t.Series.Gate-1], k, j)
 			}
 		}
 	}
@@ -170,13 +192,16 @@ func (c *GkrCircuit) Define(api frontend.API) error {
 
 // c19Eval is the direct evaluation (port of GkrTopo.tla Instances): returns, per instance, the values of all variables.
 func c19Eval(t *GkrBeh, in func(inst, i int) *big.Int, mod *big.Int) [][]*big.Int {
-	var out [][]*big.Int
-	var prev []*big.Int
-	for k := 0; k < t.NInst; k++ {
+	out := make([][]*big.Int, t.NInst)
+	var eval func(k int) []*big.Int
+	eval = func(k int) []*big.Int {
+		if out[k] != nil {
+			return out[k]
+		}
 		vals := make([]*big.Int, 0, t.NIn+len(t.Gates))
 		for i := 0; i < t.NIn; i++ {
-			if t.Series.Input == i && t.Series.dep(k) {
-				vals = append(vals, prev[t.NIn+t.Series.Gate-1])
+			if j := t.Series.src(k, t.NInst); t.Series.Input == i && j >= 0 {
+				vals = append(vals, eval(j)[t.NIn+t.Series.Gate-1])
 			} else {
 				vals = append(vals, new(big.Int).Mod(in(k, i), mod))
 			}
@@ -197,8 +222,11 @@ func c19Eval(t *GkrBeh, in func(inst, i int) *big.Int, mod *big.Int) [][]*big.In
 			}
 			vals = append(vals, r.Mod(r, mod))
 		}
-		out = append(out, vals)
-		prev = vals
+		out[k] = vals
+		return vals
+	}
+	for k := 0; k < t.NInst; k++ {
+		eval(k)
 	}
 	return out
 }
